@@ -1,7 +1,7 @@
 //! C17 — the F_q^12 tower engine and final exponentiation on arbitrary elements (through the
 //! cfg(john_yu_sm9_core_verif) hook module), plus the direct half of C12's squaring agreement.
 
-use crate::api::{fq, fq2, fq2v, fr, lib, ref_mul};
+use crate::api::{fq, fq2, fq2v, lib, ref_mul};
 use mccore::alpha::{generic, rinv, two};
 use mccore::{ensure, gn, gs, jn, Bad, Meta, Run, Spec, Tally, Tier};
 use num_traits::{One, Zero};
@@ -9,7 +9,7 @@ use refmodel::{consts, mulm, n, negm, q, r, F12, F2, Fld, N};
 use serde_json::{json, Value};
 use sm9_core::verif_hooks as h;
 use sm9_core::verif_hooks::{FieldElement, Fq12, Fq4};
-use sm9_core::{Fq2, G2Prepared, Group, G1, G2};
+use sm9_core::{Fq2, G2Prepared, G1, G2};
 
 fn ifq2(a: &N, b: &N) -> h::InnerFq2 {
     h::fq2_in(Fq2::new(fq(a), fq(b)))
@@ -127,6 +127,21 @@ pub fn fq12_alpha(tier: Tier, seed: u64) -> Vec<F12> {
                     f.0[j] = c;
                     v.push(f);
                 }
+            }
+        }
+        // a single non-zero Fq4 block at w^0, w^1, w^2 (coefficients at i, i+3, i+6, i+9): these put every internal
+        // Fq4-level Frobenius / sparse-multiplication helper in its context
+        for i in 0..3 {
+            for variant in 0..3 {
+                let mut f = F12::zero();
+                for j in 0..4 {
+                    f.0[i + 3 * j] = match variant {
+                        0 => g(),
+                        1 => ex[(i + j) % ex.len()].clone(),
+                        _ => if j == 0 { N::zero() } else { g() },
+                    };
+                }
+                v.push(f);
             }
         }
         // dense elements with one zero coefficient, and with all coefficients equal to one generic value
@@ -249,7 +264,6 @@ pub fn fq4_pair(a: &F12, b: &F12) -> Result<u32, Bad> {
     }
     Ok(k)
 }
-const FROB4: [usize; 8] = [10, 11, 12, 21, 22, 30, 31, 32];
 pub fn fq4_unary(a: &F12) -> Result<u32, Bad> {
     let ctx = || format!("a={}", jf(a));
     let la = to_fq4(a);
@@ -272,16 +286,9 @@ pub fn fq4_unary(a: &F12) -> Result<u32, Bad> {
         c
     }, &ctx)?;
     let mut k = 8;
-    // frobenius_map(10k+i) is specified in context: (F * w^i)^(q^k) = R * w^i
-    for code in FROB4 {
-        let (kk, i) = (code / 10, code % 10);
-        let want_full = a.mul_wk(i).frobenius(kk as u32);
-        // divide by w^i
-        let wi = F12::monomial(1, &N::one()).pow(&n(i as u64)).inv().unwrap();
-        let want = want_full.mul(&wi);
-        chk4(&format!("frobenius_map({})", code), &lib("Fq4 frobenius_map", || la.frobenius_map(code))?, &want, &ctx)?;
-        k += 1;
-    }
+    // The Fq4-level Frobenius helper (`frobenius_map(10k+i)`: the q^k-Frobenius of a coefficient sitting at w^i of an
+    // Fq12 element) is an internal numbering; it is exercised IN CONTEXT through Fq12::frobenius_map on elements
+    // with a single non-zero Fq4 block (see fq12_alpha), which is what the property is about.
     // scale by an Fq2 element and by an Fq element (taken from a's own coefficients)
     let s2 = F2 { a: a.0[3].clone(), b: a.0[0].clone() };
     chk4("scale", &lib("Fq4 scale", || la.scale(&h::fq2_in(fq2(&s2))))?, &a.mul(&F12::from_f2(&s2)), &ctx)?;
